@@ -1,3 +1,507 @@
+// vinstr rewrites packages of go-dblib for the controlled runtime (vrt) and
+// writes a `go build -overlay` file. It never touches /repo: rewritten files
+// go to -out, and the vrt runtime is mapped into the module as the virtual
+// package github.com/SAP/go-dblib/vrt.
+//
+// Rewrites (syntax directed, type information only where needed):
+//
+//	import "sync" / "sync/atomic"        -> vrt/vsync, vrt/vatomic (same API)
+//	net.Dial, crypto/rand.Reader|Read,
+//	context.WithTimeout|WithDeadline,
+//	time.Now|Sleep                       -> vrt seams
+//	go f(x)                              -> vrt.Go(func() { f(x) })
+//	ch <- v                              -> vrt.BeforeSend(ch); ch <- v
+//	<-ch (also v, ok := <-ch)            -> vrt.Recv(ch) / vrt.Recv2(ch)
+//	close(ch)                            -> vrt.Close(ch)
+//	select { case comm: ... }            -> switch vrt.Select(hasDefault, vrt.R(c)...) { case i: comm; ... }
+//	for k, v := range m (m a map)        -> for _, k := range vrt.Keys(m) { v := m[k]; ... }
+//	(mode explore, -acc) statements touching fields of package-declared
+//	structs / package variables          -> preceded by vrt.Acc(...)
+//
+// mode race: only the environment seams (Dial, rand) are redirected.
 package main
 
-func main() {}
+import (
+	"bytes"
+	"encoding/json"
+	"flag"
+	"fmt"
+	"go/ast"
+	"go/importer"
+	"go/parser"
+	"go/token"
+	"go/types"
+	"os"
+	"path/filepath"
+	"sort"
+	"strings"
+)
+
+const vrtPath = "github.com/SAP/go-dblib/vrt"
+
+type edit struct {
+	off, del int
+	text     string
+	seq      int
+}
+
+type fileCtx struct {
+	fset    *token.FileSet
+	file    *ast.File
+	src     []byte
+	edits   []edit
+	info    *types.Info
+	pkg     *types.Package
+	mode    string
+	acc     bool
+	accPts  map[string]bool
+	usedPkg map[string]bool // local import names that got a selector rewritten
+	name    string
+	failed  []string
+}
+
+func (f *fileCtx) off(p token.Pos) int { return f.fset.Position(p).Offset }
+
+func (f *fileCtx) ins(p token.Pos, text string) {
+	f.edits = append(f.edits, edit{off: f.off(p), text: text, seq: len(f.edits)})
+}
+
+func (f *fileCtx) repl(from, to token.Pos, text string) {
+	f.edits = append(f.edits, edit{off: f.off(from), del: f.off(to) - f.off(from), text: text, seq: len(f.edits)})
+}
+
+func (f *fileCtx) text(n ast.Node) string { return string(f.src[f.off(n.Pos()):f.off(n.End())]) }
+
+func (f *fileCtx) unsupported(n ast.Node, what string) {
+	f.failed = append(f.failed, fmt.Sprintf("%s: unsupported construct: %s", f.fset.Position(n.Pos()), what))
+}
+
+func (f *fileCtx) apply() []byte {
+	sort.SliceStable(f.edits, func(i, j int) bool {
+		if f.edits[i].off != f.edits[j].off {
+			return f.edits[i].off > f.edits[j].off
+		}
+		// same offset: replacements are applied before insertions (so that an insertion ends
+		// up in front of the replaced text); insertions keep their order of creation, i.e.
+		// the later one must be applied first so that it ends up after the earlier one
+		if (f.edits[i].del > 0) != (f.edits[j].del > 0) {
+			return f.edits[i].del > 0
+		}
+		return f.edits[i].seq > f.edits[j].seq
+	})
+	out := append([]byte{}, f.src...)
+	for _, e := range f.edits {
+		out = append(out[:e.off], append([]byte(e.text), out[e.off+e.del:]...)...)
+	}
+	return out
+}
+
+func (f *fileCtx) pkgOf(x ast.Expr) string {
+	id, ok := x.(*ast.Ident)
+	if !ok {
+		return ""
+	}
+	if pn, ok := f.info.Uses[id].(*types.PkgName); ok {
+		return pn.Imported().Path()
+	}
+	return ""
+}
+
+func isChan(t types.Type) bool {
+	if t == nil {
+		return false
+	}
+	_, ok := t.Underlying().(*types.Chan)
+	return ok
+}
+
+func isMap(t types.Type) bool {
+	if t == nil {
+		return false
+	}
+	_, ok := t.Underlying().(*types.Map)
+	return ok
+}
+
+func (f *fileCtx) rewriteImports() {
+	for _, imp := range f.file.Imports {
+		path := strings.Trim(imp.Path.Value, `"`)
+		var np, name string
+		switch path {
+		case "sync":
+			np, name = vrtPath+"/vsync", "sync"
+		case "sync/atomic":
+			np, name = vrtPath+"/vatomic", "atomic"
+		default:
+			continue
+		}
+		if f.mode != "explore" {
+			continue
+		}
+		if imp.Name != nil {
+			name = imp.Name.Name
+			f.repl(imp.Path.Pos(), imp.Path.End(), `"`+np+`"`)
+		} else {
+			f.repl(imp.Path.Pos(), imp.Path.End(), name+` "`+np+`"`)
+		}
+	}
+	// vrt import on the package clause line: no line shifts
+	f.ins(f.file.Name.End(), `; import vrt "`+vrtPath+`"; import vrtunsafe "unsafe"`)
+}
+
+// pure reports whether evaluating e twice is harmless (identifiers, field
+// selectors, dereferences, method calls without arguments such as ctx.Done()).
+func pure(e ast.Expr) bool {
+	switch x := e.(type) {
+	case *ast.Ident:
+		return true
+	case *ast.SelectorExpr:
+		return pure(x.X)
+	case *ast.StarExpr:
+		return pure(x.X)
+	case *ast.ParenExpr:
+		return pure(x.X)
+	case *ast.CallExpr:
+		return len(x.Args) == 0 && pure(x.Fun)
+	case *ast.BasicLit:
+		return true
+	}
+	return false
+}
+
+func (f *fileCtx) walk() {
+	var stack []ast.Node
+	inComm := map[ast.Node]bool{} // comm statements of select clauses: left untouched
+	ast.Inspect(f.file, func(n ast.Node) bool {
+		if n == nil {
+			stack = stack[:len(stack)-1]
+			return true
+		}
+		stack = append(stack, n)
+		parent := func(i int) ast.Node {
+			if len(stack)-1-i < 0 {
+				return nil
+			}
+			return stack[len(stack)-1-i]
+		}
+		switch x := n.(type) {
+		case *ast.SelectorExpr:
+			f.selector(x)
+		case *ast.GoStmt:
+			if f.mode != "explore" {
+				break
+			}
+			for _, a := range x.Call.Args {
+				if !pure(a) {
+					f.unsupported(x, "go statement with a non-trivial argument")
+				}
+			}
+			f.repl(x.Pos(), x.Call.Pos(), "vrt.Go(func() { ")
+			f.ins(x.End(), " })")
+		case *ast.SendStmt:
+			if f.mode != "explore" || inComm[x] {
+				break
+			}
+			if !pure(x.Chan) {
+				f.unsupported(x, "send on a channel expression with side effects")
+			}
+			f.ins(x.Pos(), "vrt.BeforeSend("+f.text(x.Chan)+"); ")
+		case *ast.UnaryExpr:
+			if f.mode != "explore" || x.Op != token.ARROW {
+				break
+			}
+			// is this the receive of a comm clause?
+			for i := 1; i <= 3; i++ {
+				if p := parent(i); p != nil && inComm[p] {
+					return true
+				}
+			}
+			fn := "vrt.Recv("
+			if as, ok := parent(1).(*ast.AssignStmt); ok && len(as.Lhs) == 2 && len(as.Rhs) == 1 && as.Rhs[0] == ast.Expr(x) {
+				fn = "vrt.Recv2("
+			}
+			if vs, ok := parent(1).(*ast.ValueSpec); ok && len(vs.Names) == 2 && len(vs.Values) == 1 {
+				fn = "vrt.Recv2("
+			}
+			f.repl(x.Pos(), x.X.Pos(), fn)
+			f.ins(x.End(), ")")
+		case *ast.CallExpr:
+			if f.mode != "explore" {
+				break
+			}
+			if id, ok := x.Fun.(*ast.Ident); ok && id.Name == "close" {
+				if _, isBuiltin := f.info.Uses[id].(*types.Builtin); isBuiltin {
+					f.repl(id.Pos(), id.End(), "vrt.Close")
+				}
+			}
+		case *ast.SelectStmt:
+			if f.mode != "explore" {
+				break
+			}
+			f.selectStmt(x, inComm)
+		case *ast.RangeStmt:
+			if f.mode != "explore" {
+				break
+			}
+			f.rangeStmt(x)
+		}
+		return true
+	})
+}
+
+func (f *fileCtx) selector(x *ast.SelectorExpr) {
+	p := f.pkgOf(x.X)
+	if p == "" {
+		return
+	}
+	id := x.X.(*ast.Ident)
+	var to string
+	switch p + "." + x.Sel.Name {
+	case "net.Dial":
+		to = "vrt.Dial"
+	case "crypto/rand.Reader":
+		to = "vrt.RandReader"
+	case "crypto/rand.Read":
+		to = "vrt.RandRead"
+	case "context.WithTimeout":
+		if f.mode == "explore" {
+			to = "vrt.WithTimeout"
+		}
+	case "context.WithDeadline":
+		if f.mode == "explore" {
+			to = "vrt.WithDeadline"
+		}
+	case "time.Now":
+		if f.mode == "explore" {
+			to = "vrt.VNow"
+		}
+	case "time.Sleep":
+		if f.mode == "explore" {
+			to = "vrt.Sleep"
+		}
+	case "time.After", "time.NewTimer", "time.AfterFunc", "time.Tick", "time.NewTicker":
+		if f.mode == "explore" {
+			f.unsupported(x, "real-time timer "+x.Sel.Name)
+		}
+	}
+	if to == "" {
+		return
+	}
+	f.repl(x.Pos(), x.End(), to)
+	f.usedPkg[id.Name] = true
+}
+
+func (f *fileCtx) selectStmt(x *ast.SelectStmt, inComm map[ast.Node]bool) {
+	hasDefault := false
+	var cases []string
+	idx := 0
+	for _, c := range x.Body.List {
+		cc := c.(*ast.CommClause)
+		if cc.Comm == nil {
+			hasDefault = true
+			continue
+		}
+		inComm[cc.Comm] = true
+		var ch ast.Expr
+		send := false
+		switch s := cc.Comm.(type) {
+		case *ast.SendStmt:
+			ch, send = s.Chan, true
+			if !pure(s.Value) {
+				f.unsupported(s, "select send case with a non-trivial value")
+			}
+		case *ast.ExprStmt:
+			ch = s.X.(*ast.UnaryExpr).X
+		case *ast.AssignStmt:
+			ch = s.Rhs[0].(*ast.UnaryExpr).X
+		}
+		if !pure(ch) {
+			f.unsupported(cc, "select case on a channel expression with side effects")
+		}
+		if send {
+			cases = append(cases, "vrt.W("+f.text(ch)+")")
+		} else {
+			cases = append(cases, "vrt.R("+f.text(ch)+")")
+		}
+		// case <comm>:  ->  case i: <comm>;
+		f.repl(cc.Pos(), cc.Comm.Pos(), fmt.Sprintf("case %d: ", idx))
+		f.repl(cc.Colon, cc.Colon+1, ";")
+		idx++
+	}
+	hd := "false"
+	if hasDefault {
+		hd = "true"
+	} else {
+		// a select without default is a terminating statement, a switch is not
+		f.ins(x.Body.Rbrace, "; default: panic(\"vrt: select returned no case\") ")
+	}
+	f.repl(x.Pos(), x.Body.Pos(), "switch vrt.Select("+hd+", "+strings.Join(cases, ", ")+") ")
+}
+
+func (f *fileCtx) rangeStmt(x *ast.RangeStmt) {
+	t := f.info.TypeOf(x.X)
+	switch {
+	case isMap(t):
+		if !pure(x.X) {
+			f.unsupported(x, "range over a map expression with side effects")
+			return
+		}
+		m := f.text(x.X)
+		key, val := "_", ""
+		if x.Key != nil {
+			key = f.text(x.Key)
+		}
+		if x.Value != nil {
+			val = f.text(x.Value)
+		}
+		op := ":="
+		if x.Tok == token.ASSIGN {
+			op = "="
+		}
+		kvar := key
+		head := ""
+		if key == "_" {
+			if val == "" || val == "_" {
+				head = fmt.Sprintf("for range vrt.Keys(%s) ", m)
+				f.repl(x.Pos(), x.Body.Pos(), head)
+				return
+			}
+			kvar = "vrtk_"
+			head = fmt.Sprintf("for _, vrtk_ := range vrt.Keys(%s) ", m)
+		} else {
+			head = fmt.Sprintf("for _, %s %s range vrt.Keys(%s) ", key, op, m)
+			if x.Tok == token.ASSIGN {
+				head = fmt.Sprintf("for _, %s = range vrt.Keys(%s) ", key, m)
+			}
+		}
+		f.repl(x.Pos(), x.Body.Pos(), head)
+		if val != "" && val != "_" {
+			f.ins(x.Body.Lbrace+1, fmt.Sprintf(" %s %s %s[%s];", val, op, m, kvar))
+		}
+	case isChan(t):
+		f.unsupported(x, "range over a channel")
+	}
+}
+
+func (f *fileCtx) finish() {
+	var tail bytes.Buffer
+	tail.WriteString("\nvar _ = vrt.Keep\nvar _ vrtunsafe.Pointer\n")
+	for _, imp := range f.file.Imports {
+		path := strings.Trim(imp.Path.Value, `"`)
+		name := filepath.Base(path)
+		if imp.Name != nil {
+			name = imp.Name.Name
+		}
+		if !f.usedPkg[name] {
+			continue
+		}
+		switch path {
+		case "net":
+			fmt.Fprintf(&tail, "var _ %s.Conn\n", name)
+		case "crypto/rand":
+			fmt.Fprintf(&tail, "var _ = %s.Int\n", name)
+		case "context":
+			fmt.Fprintf(&tail, "var _ %s.Context\n", name)
+		case "time":
+			fmt.Fprintf(&tail, "var _ %s.Duration\n", name)
+		}
+	}
+	f.edits = append(f.edits, edit{off: len(f.src), text: tail.String(), seq: len(f.edits)})
+}
+
+func main() {
+	repo := flag.String("repo", "/repo", "repository root")
+	pkgs := flag.String("pkgs", "tds", "comma separated package directories relative to the repo ('.' for the root)")
+	mode := flag.String("mode", "explore", "explore|race")
+	out := flag.String("out", "", "directory for rewritten files")
+	overlay := flag.String("overlay", "", "overlay file to write")
+	vrtDir := flag.String("vrt", "", "directory holding the vrt runtime sources")
+	acc := flag.Bool("acc", false, "insert vrt.Acc before statements touching shared fields (explore mode)")
+	flag.Parse()
+	if *out == "" || *overlay == "" || *vrtDir == "" {
+		fmt.Fprintln(os.Stderr, "vinstr: -out, -overlay and -vrt are required")
+		os.Exit(2)
+	}
+	if err := os.Chdir(*repo); err != nil {
+		fmt.Fprintln(os.Stderr, err)
+		os.Exit(2)
+	}
+	os.MkdirAll(*out, 0o755)
+	replace := map[string]string{}
+	// virtual package vrt
+	filepath.Walk(*vrtDir, func(p string, fi os.FileInfo, err error) error {
+		if err != nil || fi.IsDir() || !strings.HasSuffix(p, ".go") || strings.HasSuffix(p, "_test.go") {
+			return nil
+		}
+		rel, _ := filepath.Rel(*vrtDir, p)
+		replace[filepath.Join(*repo, "vrt", rel)] = p
+		return nil
+	})
+	var failed []string
+	for _, dir := range strings.Split(*pkgs, ",") {
+		dir = strings.TrimSpace(dir)
+		if dir == "" {
+			continue
+		}
+		abs := filepath.Join(*repo, dir)
+		fset := token.NewFileSet()
+		ents, err := os.ReadDir(abs)
+		if err != nil {
+			fmt.Fprintln(os.Stderr, err)
+			os.Exit(2)
+		}
+		var files []*ast.File
+		var names []string
+		srcs := map[string][]byte{}
+		for _, e := range ents {
+			n := e.Name()
+			if e.IsDir() || !strings.HasSuffix(n, ".go") || strings.HasSuffix(n, "_test.go") {
+				continue
+			}
+			p := filepath.Join(abs, n)
+			src, err := os.ReadFile(p)
+			if err != nil {
+				fmt.Fprintln(os.Stderr, err)
+				os.Exit(2)
+			}
+			af, err := parser.ParseFile(fset, p, src, parser.ParseComments)
+			if err != nil {
+				fmt.Fprintln(os.Stderr, "vinstr: parse error (tree does not compile):", err)
+				os.Exit(2)
+			}
+			files = append(files, af)
+			names = append(names, p)
+			srcs[p] = src
+		}
+		info := &types.Info{Types: map[ast.Expr]types.TypeAndValue{}, Uses: map[*ast.Ident]types.Object{}, Defs: map[*ast.Ident]types.Object{}, Selections: map[*ast.SelectorExpr]*types.Selection{}}
+		conf := types.Config{Importer: importer.ForCompiler(fset, "source", nil), Error: func(err error) {}}
+		pkg, _ := conf.Check(dir, fset, files, info)
+		for i, af := range files {
+			fc := &fileCtx{fset: fset, file: af, src: srcs[names[i]], info: info, pkg: pkg, mode: *mode, acc: *acc, usedPkg: map[string]bool{}, name: names[i]}
+			fc.rewriteImports()
+			fc.walk()
+			if *acc && *mode == "explore" {
+				fc.accInstrument()
+			}
+			fc.finish()
+			failed = append(failed, fc.failed...)
+			outp := filepath.Join(*out, strings.ReplaceAll(dir, "/", "_")+"__"+filepath.Base(names[i]))
+			if err := os.WriteFile(outp, fc.apply(), 0o644); err != nil {
+				fmt.Fprintln(os.Stderr, err)
+				os.Exit(2)
+			}
+			replace[names[i]] = outp
+		}
+	}
+	if len(failed) > 0 {
+		for _, f := range failed {
+			fmt.Fprintln(os.Stderr, "vinstr:", f)
+		}
+		os.Exit(2)
+	}
+	bs, _ := json.MarshalIndent(map[string]interface{}{"Replace": replace}, "", " ")
+	if err := os.WriteFile(*overlay, bs, 0o644); err != nil {
+		fmt.Fprintln(os.Stderr, err)
+		os.Exit(2)
+	}
+}
